@@ -645,8 +645,14 @@ func machineCompare(rc *runCfg, m *merged, dir string, names []string, files []s
 					m.addInconclusive(fmt.Sprintf("machine-level divergence for %s (assignment %s) did not reproduce", names[op], an))
 					continue
 				}
-				m.violations = append(m.violations, taggedViolation{Violation: mon.Violation{Case: -1, Kind: "machine-level trace (instruction and memory addresses) depends on secret values",
-					Site: fmt.Sprint(det["symbol"]), Detail: det}, Config: cfgName, Mode: "machine-trace"})
+				v := mon.Violation{Case: -1, Kind: "machine-level trace (instruction and memory addresses) depends on secret values",
+					Site: fmt.Sprint(det["symbol"]), Detail: det}
+				// second witness class of known finding K1: the divergence lies in checkInitialized
+				// and this assignment has a point whose lowest X limb is zero
+				if det["in-checkInitialized"] == true && strings.Contains(classOf(dir, an, op), "[point-input-with-zero-low-X-limb]") {
+					v.Site, v.Class = "checkInitialized", "point-input-with-zero-low-X-limb"
+				}
+				m.violations = append(m.violations, taggedViolation{Violation: v, Config: cfgName, Mode: "machine-trace"})
 			}
 		}
 	}
@@ -702,6 +708,25 @@ func machineCompare(rc *runCfg, m *merged, dir string, names []string, files []s
 	b, _ := json.Marshal(perOp)
 	_ = b
 	return nil
+}
+
+// classOf returns the input class the emitter recorded for (assignment, entry point), or "".
+func classOf(dir, assignment string, op int) string {
+	files, _ := filepath.Glob(filepath.Join(dir, "meta-*.json"))
+	for _, f := range files {
+		b, err := os.ReadFile(f)
+		if err != nil {
+			continue
+		}
+		var meta map[string][]string
+		if json.Unmarshal(b, &meta) != nil {
+			continue
+		}
+		if cl, ok := meta[assignment]; ok && op < len(cl) {
+			return cl[op]
+		}
+	}
+	return ""
 }
 
 func runC03(rc *runCfg, pl *plan, m *merged) error {
